@@ -326,6 +326,9 @@ fn run(ctx: &mut Ctx) {
     if ctx.shard == 4 % ctx.nshards {
         dangling_under_spellings(ctx);
     }
+    if ctx.shard == 5 % ctx.nshards {
+        every_path_length(ctx);
+    }
     crate::sandbox::clear_dir(&sbx);
 }
 
@@ -544,6 +547,39 @@ fn failing_command_slice(ctx: &mut Ctx) {
         }
     }
     let _ = std::fs::remove_file(&log);
+}
+
+/// One entry for every printed length from 3 bytes up: names of 1..=255 bytes in `e`, and again one
+/// (thorough: up to fifteen) 250-byte directories further down, so that every length up to ~510 (~4000)
+/// bytes occurs exactly once, each delimited on its own (a fixed-size line buffer shows at one length).
+fn every_path_length(ctx: &mut Ctx) {
+    let sbx = ctx.sbx.clone();
+    crate::sandbox::clear_dir(&sbx);
+    let levels = ctx.tier.pick(2usize, 16);
+    let d = "z".repeat(250);
+    let mut exp: Vec<String> = vec![];
+    let mut prefix = "e".to_string();
+    let mut lengths = 0u64;
+    for lv in 0..levels {
+        std::fs::create_dir(sbx.join(&prefix)).unwrap();
+        exp.push(prefix.clone());
+        for k in 1..=255usize {
+            if prefix.len() + 1 + k > 4090 {
+                break;
+            }
+            let n = format!("{prefix}/{}", "n".repeat(k));
+            std::fs::write(sbx.join(&n), b"").unwrap();
+            exp.push(n);
+            lengths += 1;
+        }
+        if lv + 1 < levels {
+            prefix = format!("{prefix}/{d}");
+        }
+    }
+    ctx.rep.count("distinct_printed_path_lengths", lengths);
+    ctx.rep.nontrivial += 1;
+    pipeline_check(ctx, &sbx, &["e", "-sorted"], &exp, "one entry of every printed length");
+    let _ = std::fs::remove_dir_all(sbx.join("e"));
 }
 
 fn buffer_edge_listing(ctx: &mut Ctx) {
